@@ -44,6 +44,7 @@ class Ctx:
         self.samples = []
         self.notes = []
         self.exhaustive = {}
+        self.model_ok = False      # generated model regenerated and cbordrv rebuilt from the current source
 
     def run_c(self, lines, env=None, exe=None):
         out, rc, err = core.run_lines(exe or self.harness, lines, env=env)
@@ -124,6 +125,7 @@ def run_check(prop, tier, replay=None):
     if rg['ok']:
         db = core.lake_build(['cbordrv'])
         drv_ok = db['ok']
+        ctx.model_ok = db['ok']
         report['steps']['driver_build'] = {'ok': db['ok'], 'tail': '' if db['ok'] else db['out'][-1500:]}
         if not db['ok']:
             broken.append({'kind': 'correspondence', 'what': 'model driver cbordrv does not build', 'detail': first_error(db['out'])})
